@@ -216,6 +216,9 @@ fn gen_case(t: &mut Tape) -> Vec<u8> {
 }
 
 pub fn run(r: &mut Runner) -> &'static str {
+    // a crash (stack overflow, abort) or an endless loop of the code under test is a violation of THIS property:
+    // journal the case each worker is judging so that `--triage` can find it after an abnormal end
+    r.journal = true;
     r.rule = "inputs: the union of all byte-level generators (valid v1/v2 headers +- trailers, one-step mutants, token sequences, random bytes, v1 text followed by a v2 header), valid-UTF-8 strings with a \
               2/3/4-byte character immediately before / after the first CR, TLV-shaped slices; every input goes through try_from(&[u8]), try_from(&str) + both FromStr impls (when UTF-8), the v2 parser, the \
               auto-detecting parser and TypeLengthValues::from, and then through every accessor / formatter / to_owned / iterator of whatever was returned. oracle: 'returned normally' (catch_unwind) and \
